@@ -1,0 +1,66 @@
+//go:build verif
+
+package proto
+
+import (
+	"google.golang.org/protobuf/reflect/protoreflect"
+	"google.golang.org/protobuf/runtime/protoiface"
+)
+
+// Contracts for the central unmarshal function (properties C06, C07, C10).
+//
+// The decoders themselves are reached through method tables and protoreflect interfaces and are
+// abstracted here (their calls have arbitrary effects and results). What is decided is the
+// protocol that unmarshal must follow around them, taken from the property statements:
+//
+//   - C07: below the top level, decoding always MERGES into what is there (a repeated occurrence of
+//     a singular message field is merged, never reset): the reflection decoder may only run with
+//     Merge set, because it comes back through unmarshal for every nested message.
+//   - C10: required fields are checked once, on the whole tree, at the top: nested decoding runs
+//     with AllowPartial set; and without AllowPartial a nil error is only returned if the fast
+//     path reported the message initialized or checkInitialized was consulted and its verdict
+//     is what is returned.
+//   - C06: the recursion budget is decremented before the reflection decoder descends, and a
+//     negative budget is an error.
+
+// specInitVerdict marks a value as the verdict of checkInitialized (uninterpreted).
+//
+//@ uninterpreted
+func specInitVerdict(err error) bool { return true }
+
+// checkInitialized walks the message through protoreflect: trusted, its result is by definition
+// the initialization verdict.
+//
+//@ trusted
+func contract_checkInitialized(m protoreflect.Message) (err error) {
+	modifiesAll()
+	ensuresTrusted(specInitVerdict(err))
+	return
+}
+
+// The reflection decoder: body not verified (protoreflect), preconditions checked at its callers.
+//
+//@ trusted
+func contract_UnmarshalOptions_unmarshalMessageSlow(o UnmarshalOptions, b []byte, m protoreflect.Message) (err error) {
+	requires(o.Merge)
+	requires(o.AllowPartial)
+	requires(o.RecursionLimit >= 0)
+	modifiesAll()
+	return
+}
+
+// Table invariant of protoiface.Methods.Unmarshal as used here: no requirement, arbitrary result.
+func fieldcontract_Methods_Unmarshal(in protoiface.UnmarshalInput) (out protoiface.UnmarshalOutput, err error) {
+	return
+}
+
+//@ props C06 C07 C10
+//@ mode int
+//@ nopanic
+//@ guard-errors
+func contract_UnmarshalOptions_unmarshal(o UnmarshalOptions, b []byte, m protoreflect.Message) (out protoiface.UnmarshalOutput, err error) {
+	modifiesAll()
+	// without AllowPartial, success means: reported initialized by the fast path, or vouched for by checkInitialized
+	ensures(imp(err == nil && !o.AllowPartial, out.Flags&protoiface.UnmarshalInitialized != 0 || specInitVerdict(err)))
+	return
+}
